@@ -406,8 +406,8 @@ func (r *Run) goTargets(ev Event) []*Func {
 		if ev.Fn != nil {
 			inst := ev.Fn
 			holder := inst.origOrSelf()
-			if pidx := r.spawnedParam(holder, ev.Lit); pidx >= 0 && inst.bind != nil && inst.bind.call != nil && pidx < len(inst.bind.call.Args) {
-				if tgt := funcValueTarget(inst.bind.caller.Info(), ast.Unparen(inst.bind.call.Args[pidx])); tgt != nil {
+			if pidx := r.spawnedParam(holder, ev.Lit); pidx >= 0 && inst.bind != nil && inst.bind.call != nil && pidx < len(inst.bind.argv()) {
+				if tgt := funcValueTarget(inst.bind.caller.Info(), ast.Unparen(inst.bind.argv()[pidx])); tgt != nil {
 					if tf := r.P.Funcs[tgt]; tf != nil {
 						targets = append(targets, tf)
 					}
